@@ -36,6 +36,8 @@ def run(ctx):
     scen.append(dict(kind="wl", wl=dict(words=[], nolist=0, len=2, cap="none", sep="char", sepChar=[]), maxTrials=0, failRateOne=0, mode="paths", paths=1,
                      maxLeaves=0, tag="empty-input", reps=0))
     files, cells, leaves = wlfam.run_scenarios(ctx, scen, "c10")
+    sf, sc_, sl = wlfam.run_sequences(ctx, wlfam.ctor_collision_sequences(), "c10")
+    files, cells, leaves = files + sf, cells + sc_, leaves + sl
     verdicts, decided = wlfam.validate(ctx, files)
     ctx.evaluations = sum(s["reps"] for s in scen) + leaves
     ctx.nontrivial = wlfam.count_cells(files, lambda c: c["ctorErr"] == 0 and len(c["kept"]) < len(c["wl"]["words"]))
